@@ -17,3 +17,5 @@ def check(ctx: Ctx) -> None:
     # "exactly the named tasks": an id names one task only if no two tasks are ever given the same id (shared with C11)
     from . import naming as N
     N.r_id_discipline(ctx, "R06.5")
+    # "and to no other task": a cancellation delivered to one pool task must not travel on through something it awaits
+    S.r_no_shared_task(ctx, "R06.6")
